@@ -27,6 +27,8 @@ def dispatch (mode : String) : Option (List String → Verdict) :=
   | "C13" => some SockModel.Drive.C13.runCase
   | "C11" => some SockModel.Drive.C11.runCase
   | "C12" => some SockModel.Drive.C12.runCase
+  | "C18" => some SockModel.Drive.C18.runCase
+  | "C15" => some SockModel.Drive.C15.runCase
   | _ => none
 
 def main (args : List String) : IO UInt32 := do
